@@ -9,7 +9,7 @@ use crate::session::{assemble_fresh as assemble, assemble_here, Asm};
 use crate::util;
 use serde_json::{json, Value};
 
-pub const SOURCES: [(&str, &str); 12] = [
+pub const SOURCES: [(&str, &str); 16] = [
     ("validA", "start add r0 r0 #1\nloop br loop\ndata .fill x10\n ld r1 data\n"),
     ("validB-reuses-labels", "data .fill x5\nstart ld r0 data\nloop add r0 r0 #-1\nbrp loop\nhalt\n"),
     ("lexer-failure-after-label", "start add r0 r0 #1\n .bogus\n"),
@@ -22,6 +22,11 @@ pub const SOURCES: [(&str, &str); 12] = [
     ("empty", ""),
     ("uses-undefined-loop", "br loop\nhalt\n"),
     ("uses-undefined-data-start", "ld r0 data\nlea r1 start\nhalt\n"),
+    // forward references (resolved only at backpatch), and a failure after one was resolved
+    ("backpatch-failure-after-forward-ref", "br fwd\nld r1 later\nbr nope\nfwd halt\nlater .fill x7\n"),
+    ("valid-forward-refs-elsewhere", "add r0 r0 r0\nbr fwd\nadd r1 r1 r1\nld r2 later\nlater .fill x9\nfwd halt\n"),
+    ("uses-undefined-fwd", "br fwd\nhalt\n"),
+    ("emission-failure-after-forward-ref", "lea r0 later\nbr far\n.blkw x200\nfar halt\nlater .fill x1\n"),
 ];
 
 fn summarize(a: &Asm) -> String {
@@ -137,7 +142,7 @@ pub fn run(ctx: &Ctx) -> i32 {
         ctx,
         acc,
         Level { category: "model_checking", bfs: Some((n, n, n, max_len as u64)) },
-        "every sequence of length 1..=max_len over 12 sources (valid, failing at each stage, sharing and re-using label names) assembled on one thread with reset_state()+reclaim between elements; each element's result (image, origin, breakpoints, spans, or diagnostic incl. rendering) compared with the same source on a fresh thread; states = sequences (no merging: equality of the merged states is the property itself); distinct_nontrivial = sequences of length >= 2 that agreed",
+        "every sequence of length 1..=max_len over 16 sources (valid, failing at each stage, sharing and re-using label names) assembled on one thread with reset_state()+reclaim between elements; each element's result (image, origin, breakpoints, spans, or diagnostic incl. rendering) compared with the same source on a fresh thread; states = sequences (no merging: equality of the merged states is the property itself); distinct_nontrivial = sequences of length >= 2 that agreed",
         true,
         &["ok-after-failure", "failure-after-ok", "some-source-ok", "stage-lex", "stage-parse", "stage-backpatch", "stage-emit"],
         &["a fresh OS thread has the thread-local state of a fresh process", "diagnostic rendering is deterministic for equal (report, source)"],
